@@ -395,6 +395,35 @@ func init() {
 									return true
 								}
 							}
+							// B is v.F and this statement defines v by a literal whose F is make(…, len(A))
+							if bse, ok := ast.Unparen(ix.X).(*ast.SelectorExpr); ok && len(as.Lhs) == len(as.Rhs) {
+								for i, l := range as.Lhs {
+									if identObj(info, l) == nil || identObj(info, l) != identObj(info, bse.X) {
+										continue
+									}
+									rh := ast.Unparen(as.Rhs[i])
+									if u, ok := rh.(*ast.UnaryExpr); ok && u.Op == token.AND {
+										rh = ast.Unparen(u.X)
+									}
+									cl, ok := rh.(*ast.CompositeLit)
+									if !ok {
+										continue
+									}
+									for _, el := range cl.Elts {
+										kv, ok := el.(*ast.KeyValueExpr)
+										if !ok {
+											continue
+										}
+										if kid, ok := kv.Key.(*ast.Ident); !ok || kid.Name != bse.Sel.Name {
+											continue
+										}
+										mk, ok := ast.Unparen(kv.Value).(*ast.CallExpr)
+										if ok && isBuiltin(info, mk, "make") && len(mk.Args) == 2 && lenOf(mk.Args[1]) == "A" {
+											return true
+										}
+									}
+								}
+							}
 							return false
 						}
 						// B has a constant length k by construction and the loop runs where len(A) == k
